@@ -16,6 +16,9 @@ for d in sorted(os.listdir(root)):
     sd = os.path.join(root, d)
     if not re.match(r'^C\d+[a-z]$', d) or not os.path.isfile(os.path.join(sd, 'verified.json')):
         continue
+    if d in arr.get('rejected', {}):
+        print(d, 'REJECTED:', arr['rejected'][d][:100])
+        continue
     v = json.load(open(os.path.join(sd, 'verified.json')))
     ok = v.get('build') == 'ok' and v.get('demo_with_patch') == 'fail' and v.get('demo_without_patch') == 'pass' and 'missing 0' in v.get('baseline', '')
     if not ok:
